@@ -228,13 +228,20 @@ def run(pid, mod, args, seed, t0, workdir):
 
     # ---- search when a proof / translation / model correspondence broke ---
     searched = 0
-    if (broken or m_bad or not model_ok) and not o_bad:
+
+    def is_known(i):
+        fk = cases[i].get('finding_key')
+        return bool(fk and match_known(pid, fk, known))
+    # oracle failures that are listed known findings neither stop the search nor mask a broken obligation
+    o_bad_real = {i for i in o_bad if not is_known(i)}
+    if (broken or m_bad or not model_ok) and not o_bad_real:
         extra = mod.search(rng, tier, broken) if hasattr(mod, 'search') else mod.generate(random.Random(seed + 99), 'thorough')
         searched = len(extra)
         eo_bad, _ = oracle_eval(mod, extra, workdir, 's', False)
         base = len(cases)
         cases.extend(extra)
         o_bad |= {base + i for i in eo_bad}
+        o_bad_real |= {base + i for i in eo_bad}
 
     # ---- decide ----------------------------------------------------------
     lines = []
@@ -273,7 +280,7 @@ def run(pid, mod, args, seed, t0, workdir):
             rc = 1
             if violations >= 5:
                 break
-    elif broken or m_bad or not model_ok:
+    if not o_bad_real and (broken or m_bad or not model_ok):
         what = list(broken)
         if m_bad:
             what.append('correspondence model-vs-implementation (L1) fails on %d case(s); first: %s' % (
